@@ -190,7 +190,18 @@ pub fn run<B: Base>(job: &Value, x: &[B], x2: Option<&[B]>) -> (Vec<Rel<B>>, Val
             let sub: Vec<B> = keep.iter().map(|&i| n[i]).collect();
             let c1 = m1.contribs(&StateHD::new(t, v, Array1::from(full)));
             let c2 = m2.contribs(&StateHD::new(t, v, Array1::from(sub)));
-            pairwise("", c1, c2, 0, &mut rels);
+            // match by name: a contribution that only one of the models has must vanish
+            for (n1, a) in &c1 {
+                match c2.iter().find(|(n2, _)| n2 == n1) {
+                    Some((_, b)) => rels.push(Rel { name: n1.clone(), a: *a, b: *b, d: 0 }),
+                    None => rels.push(Rel { name: format!("{n1}:absent_in_submodel"), a: *a, b: B::from(0.0), d: 0 }),
+                }
+            }
+            for (n2, b) in &c2 {
+                if !c1.iter().any(|(n1, _)| n1 == n2) {
+                    rels.push(Rel { name: format!("{n2}:absent_in_full_model"), a: B::from(0.0), b: *b, d: 0 });
+                }
+            }
         }
         // C09-4 (and C08 pairs): two models, same state
         "pair" => {
@@ -298,6 +309,62 @@ pub fn run<B: Base>(job: &Value, x: &[B], x2: Option<&[B]>) -> (Vec<Rel<B>>, Val
             let a2 = ig.helmholtz(&StateHD::new(t, lam * v, Array1::from(ln)));
             rels.push(Rel { name: "A_ig:ext".into(), a: a_mix, b: a2, d: 1 });
         }
+        // native confirmation for C01-b: analytic first derivative (dual part) vs central difference of the
+        // library's own value, per contribution, direction job["seed"][0]
+        "fd" => {
+            let m = build(&job["model"]);
+            let s = Seed::parse(job["seed"][0].as_str().unwrap());
+            let lift = |x: B, w: Seed| {
+                let mut d = Dual::<B, f64>::from_re(x);
+                if w == s {
+                    d.eps = B::one();
+                }
+                d
+            };
+            let c = m.contribs(&state_with(t, v, &n, lift));
+            let h = job["h"].as_f64().unwrap_or(1e-6);
+            let shift = |f: f64| -> Vec<(String, B)> {
+                let mut t2 = t;
+                let mut v2 = v;
+                let mut n2 = n.clone();
+                match s {
+                    Seed::T => t2 = t * (1.0 + f * h),
+                    Seed::V => v2 = v * (1.0 + f * h),
+                    Seed::N(i) => n2[i] = n[i] * (1.0 + f * h),
+                }
+                m.contribs(&StateHD::new(t2, v2, Array1::from(n2)))
+            };
+            let (cp, cm) = (shift(1.0), shift(-1.0));
+            let x0 = match s {
+                Seed::T => t,
+                Seed::V => v,
+                Seed::N(i) => n[i],
+            };
+            for (k, (name, d)) in c.into_iter().enumerate() {
+                let fd = (cp[k].1 - cm[k].1) / (x0 * (2.0 * h));
+                rels.push(Rel { name: format!("d{}:{}", job["seed"][0].as_str().unwrap(), name), a: fd, b: d.eps, d: 0 });
+            }
+        }
+        // C08-6: Peng-Robinson pressure (as the library differentiates it: -d(A_res)/dV through Dual numbers)
+        // vs the textbook closed form p = RT/(v-b) - a/(v^2+2bv-b^2), written independently below
+        "pr_textbook" => {
+            let m = build(&job["model"]);
+            let lift = |x: B, w: Seed| {
+                let mut d = Dual::<B, f64>::from_re(x);
+                if w == Seed::V {
+                    d.eps = B::one();
+                }
+                d
+            };
+            let st = state_with(t, v, &n, lift);
+            let a = total(&m.contribs(&st)) * st.temperature;
+            let p_code = -a.eps;
+            let spec = &job["model"]["syn"];
+            let recs: Vec<Vec<f64>> = spec.as_array().unwrap().iter().map(|r| r.as_array().unwrap().iter().map(|x| x.as_f64().unwrap()).collect()).collect();
+            let kij = job["model"]["bin"].as_f64().unwrap_or(0.0);
+            let p_text = pr_textbook_pressure(&recs, kij, t, v, &n);
+            rels.push(Rel { name: "p_res:Peng_Robinson~textbook".into(), a: p_text, b: p_code, d: 0 });
+        }
         j => panic!("unknown job {j}"),
     }
     let _ = Model::components;
@@ -313,4 +380,32 @@ fn virial_state<D: DualNum<f64> + Copy>(temperature: D, density: D, molefracs: &
     let moles = partial_density.mapv(|pd| pd * volume);
     let molefracs = molefracs.mapv(D::from);
     StateHD { temperature, volume, moles, molefracs, partial_density }
+}
+
+/// Textbook Peng-Robinson (Peng & Robinson 1976) residual pressure in reduced units (K / A^3):
+///   p = N k_B T/(V - B) - A/(V^2 + 2 B V - B^2),  p_res = p - N k_B T / V
+///   a_i = 0.45724 R^2 Tc^2/pc * alpha_i(T),  b_i = 0.07780 R Tc/pc,
+///   alpha_i = (1 + kappa_i (1 - sqrt(T/Tc)))^2,  kappa_i = 0.37464 + 1.54226 w - 0.26992 w^2
+///   A = sum_ij N_i N_j sqrt(a_i a_j) (1 - k_ij),  B = sum_i N_i b_i
+/// records: [Tc/K, pc/Pa, omega, ...]; 1 Pa = 1e-30/k_B K/A^3
+fn pr_textbook_pressure<B: Base>(recs: &[Vec<f64>], kij: f64, t: B, v: B, n: &[B]) -> B {
+    const KB: f64 = 1.380649e-23;
+    let ntot = n.iter().fold(B::zero(), |a, &x| a + x);
+    let mut bb = B::zero();
+    let mut ai = Vec::new();
+    for (i, r) in recs.iter().enumerate() {
+        let (tc, pc, w) = (r[0], r[1] * 1e-30 / KB, r[2]);
+        let kappa = 0.37464 + 1.54226 * w - 0.26992 * w * w;
+        let alpha = ((B::one() - (t / tc).sqrt()) * kappa + 1.0).powi(2);
+        ai.push(alpha * (0.45724 * tc * tc / pc));
+        bb = bb + n[i] * (0.07780 * tc / pc);
+    }
+    let mut aa = B::zero();
+    for i in 0..recs.len() {
+        for j in 0..recs.len() {
+            let k = if i == j { 0.0 } else { kij };
+            aa = aa + n[i] * n[j] * (ai[i] * ai[j]).sqrt() * (1.0 - k);
+        }
+    }
+    ntot * t / (v - bb) - aa / (v * v + bb * v * 2.0 - bb * bb) - ntot * t / v
 }
